@@ -78,6 +78,24 @@ func propC10(c *ctx) error {
 		if err := checkParse(full, false, "trailing text after a complete expression accepted"); err != nil {
 			return err
 		}
+		// the same junk INSIDE brackets, call arguments, an index and the arms of a conditional, and brackets that are
+		// never closed: nothing may be repaired silently
+		if i%3 == 0 || !c.quick() {
+			wrapped := []string{"(" + full + ")", "b1 ? " + full + " : 1", "b1 ? 1 : (" + full + ")", "(" + src, "c3(" + src, "xs[" + src, "(" + src + "))"}
+			if !strings.Contains(s, ",") {
+				wrapped = append(wrapped, "c3("+full+")", "c3(1, "+full+")", "xs["+full+"]") // (Go itself reads `xs[a ,]` as an instantiation)
+			}
+			w := wrapped[r.n(len(wrapped))]
+			if !strings.Contains(w, "?") && !strings.Contains(w, "'") {
+				if _, err := parser.ParseExpr(w); err == nil {
+					res.SelfTest = append(res.SelfTest, "oracle: go/parser accepts "+w)
+				}
+			}
+			if err := checkParse(w, false, "text that does not continue the expression accepted inside brackets / an unclosed bracket accepted"); err != nil {
+				return err
+			}
+			res.count("interior_junk")
+		}
 		// the same rejected text as a COMPLETE ${ } block of a directive value: rejected at load — on the first load and on
 		// every later one (a fresh manager each time: nothing learnt from an earlier, failed compilation may be reused)
 		if !strings.ContainsAny(full, "{}'\"<>&") && (i%4 == 0 || !c.quick()) {
